@@ -51,6 +51,8 @@ func ruleC20(c *Ctx, r *Report) {
 	if !requireAnchors(r, an, "C20-anchor", "redact") {
 		return
 	}
+	// a key is stored as given: no binder that interprets (and, on rejection, quotes) the value
+	flagBinderRule(c, r, "C20-R1", "atlasPrivateKey", "atlasPublicKey")
 	var seeds []ssa.Value
 	var seedNames []string
 	if al := an.FlagAlloc["atlasPrivateKey"]; al != nil {
